@@ -237,6 +237,60 @@ def stale_scenario(ctx, stream, rng, version):
     ctx.case(stream, key=(version, str(old_state), str(cur_state)), sample={"version": version, "op": inp["op"]})
 
 
+class _Forever(list):
+    """a device script that never runs out: every request is answered with the same action"""
+
+    def __init__(self, action):
+        super().__init__([action])
+        self.action = action
+
+    def pop(self, i=0):
+        return self.action
+
+
+def segmented_session(ctx, stream, rng, cuts):
+    """a V3 device whose EVERY reply of the session — the handshake reply included — reaches the client in the same
+    TCP segmentation (bytewise, a 1-byte first segment, cuts at fixed offsets, ...): authenticate, apply, refresh must
+    work exactly as with whole packets (a stream may be cut anywhere; V2 has no reassembly, finding D10)"""
+    token, key = rb(rng, 64), rb(rng, 32)
+    device_id = rng.randrange(2 ** 48)
+    want = rand_state(rng)
+    model = specac.SpecAC(ctx, state=rand_state(rng), display=True, style=rng.choice(["crc", "sum"]))
+    dev = simdev.SimDevice(version=3, device_id=device_id, token=token, key=key, responder=model)
+    dev.script = _Forever(("segments", cuts, 0.05, 0.001))
+    res = {}
+
+    async def go(loop, net):
+        net.add_tcp(IP, 6444, dev)
+        ac = AC(ip=IP, port=6444, device_id=device_id)
+        await ac.authenticate(token, key)
+        set_attrs(ac, want, beep=False)
+        await ac.apply()
+        res["device"] = dict(model.state)
+        ac2 = AC(ip=IP, port=6444, device_id=device_id)
+        await ac2.authenticate(token, key)
+        await ac2.refresh()
+        res["client"] = read_attrs(ac2)
+        res["online"] = ac2.online
+        res["requests"] = len([1 for e in dev.log if e.get("kind") in ("hs", "data")])
+    try:
+        vloop.run(go)
+    except Exception as e:  # noqa
+        res["exc"] = type(e).__name__ + ": " + str(e)[:80]
+    inp = {"version": 3, "op": "segmented-session", "cuts": cuts if isinstance(cuts, str) else list(cuts), "requested": want}
+    if "exc" in res:
+        ctx.violate(stream, inp, res["exc"], "completed", "session with segmented replies failed")
+    elif res["device"] != want:
+        ctx.violate(stream, inp, {k: res["device"][k] for k in want if res["device"][k] != want[k]},
+                    {k: want[k] for k in want if res["device"][k] != want[k]},
+                    "the state the device ended up in is not the state the user applied")
+    elif res["client"] != want or not res["online"]:
+        ctx.violate(stream, inp, {"diff": {k: res["client"][k] for k in want if res["client"][k] != want[k]}, "online": res["online"]},
+                    "the device's state, online", "refresh does not report the state the device is in")
+    ctx.count(f"{stream}:cuts={cuts if isinstance(cuts, str) else len(cuts)}")
+    ctx.case(stream, key=(str(cuts), str(want)), sample={"cuts": inp["cuts"]})
+
+
 def _pred(name):
     return lambda v: isinstance(v.get("observed"), dict) and v["observed"].get("mechanism") == name
 
@@ -262,6 +316,11 @@ def run(ctx):
     for version in (2, 3):
         for _ in range(10 if ctx.tier == "quick" else 200):
             stale_scenario(ctx, "stale_push", rng, version)
+    fixed = ["bytewise", [1], [2], [1, 2], [5], [6], [7], [8], [1, 6], [1, 8]]
+    for cuts in fixed:
+        segmented_session(ctx, "segmented_session", rng, cuts)
+    for _ in range(10 if ctx.tier == "quick" else 300):
+        segmented_session(ctx, "segmented_session", rng, sorted(rng.sample(range(1, 72), rng.randrange(1, 6))))
 
 
 def search(ctx):
